@@ -1,0 +1,154 @@
+//! Verification hooks. Compiled only with `--cfg graphql_client_verif`; never part of a normal
+//! build. They let an external harness (i) observe the process-wide schema / query caches and
+//! (ii) decide, at every acquisition of a cache lock, which thread runs next.
+//!
+//! With no hooks registered the wrapper behaves exactly like `std::sync::Mutex` (poisoning
+//! included).
+
+use std::ops::{Deref, DerefMut};
+use std::sync::{Arc, LockResult, PoisonError, RwLock, TryLockError};
+
+/// Callbacks invoked by the cache mutex wrapper. `id` identifies the mutex (its address).
+pub trait SyncHooks: Send + Sync {
+    /// The calling thread is about to try to take mutex `id`. A scheduling point: the
+    /// implementation may block the caller until it is scheduled again.
+    fn want_lock(&self, id: usize);
+    /// The try-lock failed because another thread holds mutex `id`. The implementation should
+    /// block the caller until `released(id)` was seen and the caller is scheduled again.
+    fn lock_failed(&self, id: usize);
+    /// The caller now holds mutex `id` (possibly poisoned).
+    fn acquired(&self, id: usize);
+    /// Mutex `id` was unlocked by the caller.
+    fn released(&self, id: usize);
+}
+
+static HOOKS: RwLock<Option<Arc<dyn SyncHooks>>> = RwLock::new(None);
+
+/// Register (or clear) the hooks.
+pub fn set_sync_hooks(hooks: Option<Arc<dyn SyncHooks>>) {
+    *HOOKS.write().unwrap_or_else(PoisonError::into_inner) = hooks;
+}
+
+fn current_hooks() -> Option<Arc<dyn SyncHooks>> {
+    HOOKS.read().unwrap_or_else(PoisonError::into_inner).clone()
+}
+
+/// `std::sync::Mutex` with observable lock / unlock events.
+#[derive(Debug, Default)]
+pub struct Mutex<T> {
+    inner: std::sync::Mutex<T>,
+}
+
+/// Guard returned by [`Mutex::lock`].
+pub struct MutexGuard<'a, T> {
+    guard: Option<std::sync::MutexGuard<'a, T>>,
+    hooks: Option<Arc<dyn SyncHooks>>,
+    id: usize,
+}
+
+impl<T> Mutex<T> {
+    fn id(&self) -> usize {
+        &self.inner as *const _ as usize
+    }
+
+    /// Same contract as `std::sync::Mutex::lock`.
+    pub fn lock(&self) -> LockResult<MutexGuard<'_, T>> {
+        let id = self.id();
+        let hooks = match current_hooks() {
+            None => {
+                return match self.inner.lock() {
+                    Ok(guard) => Ok(MutexGuard { guard: Some(guard), hooks: None, id }),
+                    Err(poisoned) => Err(PoisonError::new(MutexGuard {
+                        guard: Some(poisoned.into_inner()),
+                        hooks: None,
+                        id,
+                    })),
+                }
+            }
+            Some(hooks) => hooks,
+        };
+
+        loop {
+            hooks.want_lock(id);
+            match self.inner.try_lock() {
+                Ok(guard) => {
+                    hooks.acquired(id);
+                    return Ok(MutexGuard { guard: Some(guard), hooks: Some(hooks), id });
+                }
+                Err(TryLockError::Poisoned(poisoned)) => {
+                    hooks.acquired(id);
+                    return Err(PoisonError::new(MutexGuard {
+                        guard: Some(poisoned.into_inner()),
+                        hooks: Some(hooks),
+                        id,
+                    }));
+                }
+                Err(TryLockError::WouldBlock) => hooks.lock_failed(id),
+            }
+        }
+    }
+
+    /// Access for observation only: bypasses the hooks and ignores poisoning.
+    pub fn peek<R>(&self, f: impl FnOnce(&T, bool) -> R) -> R {
+        match self.inner.lock() {
+            Ok(guard) => f(&guard, false),
+            Err(poisoned) => f(&poisoned.into_inner(), true),
+        }
+    }
+}
+
+impl<T> Deref for MutexGuard<'_, T> {
+    type Target = T;
+    fn deref(&self) -> &T {
+        self.guard.as_ref().expect("guard present until drop")
+    }
+}
+
+impl<T> DerefMut for MutexGuard<'_, T> {
+    fn deref_mut(&mut self) -> &mut T {
+        self.guard.as_mut().expect("guard present until drop")
+    }
+}
+
+impl<T> Drop for MutexGuard<'_, T> {
+    fn drop(&mut self) {
+        // Unlock first (this is also where std records poisoning while unwinding) ...
+        drop(self.guard.take());
+        // ... then tell the harness.
+        if let Some(hooks) = self.hooks.take() {
+            hooks.released(self.id);
+        }
+    }
+}
+
+/// One cache as seen from outside: name, poison flag, and `(path, digest of the cached value)`
+/// pairs in key order.
+pub type CacheSnapshot = (&'static str, bool, Vec<(String, u64)>);
+
+fn digest(text: &str) -> u64 {
+    let mut h: u64 = 0xcbf2_9ce4_8422_2325;
+    for b in text.as_bytes() {
+        h ^= u64::from(*b);
+        h = h.wrapping_mul(0x0000_0100_0000_01b3);
+    }
+    h
+}
+
+/// Snapshot of both process-wide caches.
+pub fn cache_state() -> Vec<CacheSnapshot> {
+    let schema = crate::SCHEMA_CACHE.peek(|map, poisoned| {
+        let entries = map
+            .iter()
+            .map(|(k, v)| (k.display().to_string(), digest(&format!("{:?}", v))))
+            .collect();
+        ("schema", poisoned, entries)
+    });
+    let query = crate::QUERY_CACHE.peek(|map, poisoned| {
+        let entries = map
+            .iter()
+            .map(|(k, v)| (k.display().to_string(), digest(&format!("{:?}", v))))
+            .collect();
+        ("query", poisoned, entries)
+    });
+    vec![schema, query]
+}
